@@ -831,10 +831,10 @@ func divergenceKey(k *c11Case, ref refVerdict, refClass string, seen proto.Messa
 		}
 	}
 	if sh.kind == "flatten" {
-		return "delegated:C04:roundtrip:flatten"
+		return "delegated:C04:roundtrip:flatten_child_lost"
 	}
 	if sh.kind == "oneofflat" {
-		return "delegated:C04:roundtrip:oneof"
+		return "delegated:C04:decode_contract_form_value:oneof_flatten_multiword_variant_field_dropped"
 	}
 	return "dispatched_value:" + sh.kind
 }
